@@ -219,6 +219,81 @@ def Outcome.sld : Outcome α → Option (α × α × α)
 def neutronSld (t : Tbl α) (atoms : List (Atom × α)) (density w : α) : Option (α × α × α) :=
   (neutronScattering t atoms density w).sld
 
+/-! ## `Spec`: the equations of the `neutron_scattering` docstring, written from the text
+
+Nothing here refers to the code's running sums, to `b_c_complex`, `_4PI_100` or
+`_calculate_scattering`; constants are written as the docstring writes them. -/
+namespace Spec
+
+/-- `Σ` -/
+def sum : List α → α
+  | [] => 0
+  | x :: r => x + sum r
+
+/-- "Im(b_ck) = −σ_ak / (1000·2λ)", λ = 1.798 Å -/
+def imB (sigmaA : α) : α := -(sigmaA / (lit 1000 * lit 2 * PtGen.ABSORPTION_WAVELENGTH))
+
+/-- scattering length and total cross section of one atom: tabulated `b_c`, `σ_a`, `σ_s`; for the
+    energy-dependent rare earths "b_c is interpolated from the table values, with the end points
+    used for values outside the tabulated range" and "the total scattering is estimated from b" -/
+def atom (r : NRec α) (w : α) : Cx α × α :=
+  match r.table with
+  | none => ((r.bc, imB r.absorption), r.total)
+  | some g =>
+    let b := interpClamp g w
+    (b, lit 4 * Transc.pi * (b.1 * b.1 + b.2 * b.2) / lit 100)
+
+/-- the per-atom values a compound sums over (an atom without record contributes nothing – the
+    theorems assume every atom has one) -/
+def atomOf (t : Tbl α) (w : α) (x : Atom) : Cx α × α :=
+  match t.neutron x with
+  | some r => atom r w
+  | none => ((0, 0), 0)
+
+variable (t : Tbl α) (atoms : List (Atom × α)) (density w : α)
+
+/-- "m = Σ n_k m_k" -/
+def molarMass : α := sum (atoms.map fun e => e.2 * t.atomMass e.1)
+/-- "Σ n_k" -/
+def count : α := sum (atoms.map fun e => e.2)
+/-- "V = m/ρ · 1/N_A · (10⁸)³" -/
+def cellVolume : α :=
+  molarMass t atoms / density * (1 / PtGen.avogadro_number) * (lit (10 ^ 8) * lit (10 ^ 8) * lit (10 ^ 8))
+/-- "N = Σ n_k / V" -/
+def numberDensity : α := count atoms / cellVolume t atoms density
+/-- "Re(b_c) = Σ n_k Re(b_ck) / Σ n_k" -/
+def reB : α := sum (atoms.map fun e => e.2 * (atomOf t w e.1).1.1) / count atoms
+/-- "Im(b_c) = Σ n_k Im(b_ck) / Σ n_k" -/
+def imBc : α := sum (atoms.map fun e => e.2 * (atomOf t w e.1).1.2) / count atoms
+/-- "σ_s = Σ n_k σ_sk / Σ n_k" -/
+def sigmaS : α := sum (atoms.map fun e => e.2 * (atomOf t w e.1).2) / count atoms
+/-- "σ_c = 4π |Re(b_c) + i Im(b_c)|² / 100" -/
+def sigmaC : α :=
+  lit 4 * Transc.pi * (reB t atoms w * reB t atoms w + imBc t atoms w * imBc t atoms w) / lit 100
+/-- "σ_a = −1000·4π ⟨Im(b_c)⟩ / k for k = 2π/λ" -/
+def sigmaA : α := -(lit 1000 * lit 4 * Transc.pi * imBc t atoms w) / (lit 2 * Transc.pi / w)
+/-- "σ_i = σ_s − σ_c", never negative (the incoherent cross section is clipped at zero) -/
+def sigmaI : α :=
+  let d := sigmaS t atoms w - sigmaC t atoms w
+  if d < 0 then 0 else d
+/-- "b_i = √(100 σ_i / (4π))" -/
+def bI : α := Transc.sqrt (lit 100 * sigmaI t atoms w / (lit 4 * Transc.pi))
+
+/-- the seven documented results:
+    ρ_re = 10 N Re b_c, ρ_im = −10 N Im b_c, ρ_inc = 10 N b_i,
+    Σ_coh = N σ_c, Σ_abs = N σ_a, Σ_inc = N σ_i, t_u = 1/(Σ_s + Σ_abs) -/
+def scattering : Scat α :=
+  let n := numberDensity t atoms density
+  { sldRe := lit 10 * n * reB t atoms w
+    sldIm := -(lit 10 * n * imBc t atoms w)
+    sldInc := lit 10 * n * bI t atoms w
+    coh := n * sigmaC t atoms w
+    abs := n * sigmaA t atoms w
+    inc := n * sigmaI t atoms w
+    pen := 1 / (n * sigmaS t atoms w + n * sigmaA t atoms w) }
+
+end Spec
+
 /-! ### vector wavelength: numpy broadcasting is the pointwise application of the same
 arithmetic; `has_sld` and the vacuum test are evaluated once per call -/
 
